@@ -134,6 +134,63 @@ let () = iter_lines (fun line ->
       let nm = List.length (List.filter (function EMalloc _ -> true | _ -> false) h.trace) in
       Printf.printf "tjinit ok=%d n=%d live=%d badfree=%s hd=%d\n" (if ok then 1 else 0) nm (List.length h.live) (dec_of_z h.badfree)
         (if tjinit_handler_destroys then 1 else 0)
+  | "vacc" :: _ ->
+      (* virtual-array access path with backing store: same line as harness/c14.c do_vacc *)
+      let body = String.sub line 4 (String.length line - 4) in
+      (match fields body with
+       | [ hd; opss ] ->
+           (match words hd with
+            | [ kind; prec; width; rows; maxacc; pz; maxmem ] ->
+                let c = !cfg_ref in
+                let isb = (kind = "b") in
+                let zprec = z_of_dec prec and zw = z_of_dec width and zr = z_of_dec rows and za = z_of_dec maxacc in
+                (* total_space_allocated after init + request, from the memory-manager model *)
+                let s0 = init_st [] in
+                let (s1, _) = step64 c OInit s0 in
+                let (s2, _) = step64 c (OSetPrec zprec) s1 in
+                let (s3, _) = step64 c (if isb then OReqB (z_of_int 1, zw, zr, za) else OReqS (z_of_int 1, zw, zr, za)) s2 in
+                let total = (match s3.s_mgr with Some m -> m.m_total | None -> Z0) in
+                let ss = sample_size zprec in
+                let unit = if isb then c.c_block else ss in
+                let walloc = if isb then zw
+                  else Z.modulo (rup w64 zw (Z.div (Z.mul (z_of_int 2) c.c_align) ss)) two32 in
+                let a = ref (va_realize c unit walloc zw zr za (pz = "1") (z_of_dec maxmem) total) in
+                let b = Buffer.create 1024 in
+                Buffer.add_string b (Printf.sprintf "geom inmem=%s rpc=%s open=%d total=%s" (dec_of_z !a.a_inmem) (dec_of_z !a.a_rpc)
+                                       (if !a.a_bsopen then 1 else 0) (dec_of_z total));
+                let xs l = String.concat " " (List.map (function
+                  | XWrite (i, f, n) -> "W" ^ dec_of_z i ^ ":" ^ dec_of_z f ^ ":" ^ dec_of_z n
+                  | XRead (i, f, n) -> "R" ^ dec_of_z i ^ ":" ^ dec_of_z f ^ ":" ^ dec_of_z n) l) in
+                let errs = function BadVirtualAccess -> "bad" | VirtualBug -> "bug" | IoFuel -> "IOFUEL" in
+                List.iter (fun os ->
+                    match words os with
+                    | "r" :: st :: n :: _ ->
+                        let zn = z_of_dec n in
+                        let ((a', res), x) = access !a (z_of_dec st) zn false in
+                        a := a';
+                        Buffer.add_string b " ; ";
+                        (match res with
+                         | Inl e -> Buffer.add_string b (errs e)
+                         | Inr off ->
+                             let vals = load_rows a'.a_mem off (Z.to_nat zn) in
+                             Buffer.add_string b ("ok off=" ^ dec_of_z off ^ " [" ^
+                               String.concat " " (List.map (function Some v -> dec_of_z v | None -> "?") vals) ^ "]"));
+                        Buffer.add_string b (Printf.sprintf " x=[%s] cur=%s undef=%s dirty=%d" (xs x) (dec_of_z a'.a_cur) (dec_of_z a'.a_undef)
+                                               (if a'.a_dirty then 1 else 0))
+                    | "w" :: st :: vals ->
+                        let ((a', res), x) = write_rows !a (z_of_dec st) (List.map z_of_dec vals) in
+                        a := a';
+                        Buffer.add_string b " ; ";
+                        (match res with
+                         | Inl e -> Buffer.add_string b (errs e)
+                         | Inr off -> Buffer.add_string b ("ok off=" ^ dec_of_z off));
+                        Buffer.add_string b (Printf.sprintf " x=[%s] cur=%s undef=%s dirty=%d" (xs x) (dec_of_z a'.a_cur) (dec_of_z a'.a_undef)
+                                               (if a'.a_dirty then 1 else 0))
+                    | _ -> ()) (List.filter (fun x -> String.trim x <> "") (String.split_on_char ';' opss));
+                Buffer.add_string b " || end live=0 badfree=0";
+                print_endline (Buffer.contents b)
+            | _ -> print_endline "?")
+       | _ -> print_endline "?")
   | "destbuf" :: api :: script ->
       (* destination-buffer protocol with the configuration found in the source; one token per image:
          <L|C|R><grows><F|T|J|I><f|k> *)
